@@ -210,6 +210,7 @@ def handleC18 (f : List String) : Res :=
     | some a, some b =>
       let r : Res := {}
       let r := cmp "product" (showOpt18 showInts (productX a b)) impl r
+      let r := cmp "translated-product" (showOpt18 showInts (AC.Gen.Program.fnProduct a b)) impl r
       let valid := isChainB a && ascB18 a && isChainB b && ascB18 b
       let r := if !valid then r else
         match pInts impl with
@@ -226,6 +227,7 @@ def handleC18 (f : List String) : Res :=
     | some a, some x =>
       let r : Res := {}
       let r := cmp "plus" (showOpt18 showInts (plusX a x)) impl r
+      let r := cmp "translated-plus" (showOpt18 showInts (AC.Gen.Program.fnPlus a x)) impl r
       let valid := isChainB a && ascB18 a && a.contains x
       let r := if !valid then r else
         match pInts impl with
